@@ -212,6 +212,49 @@ func runC19Case(cc c19Case, lines, expect, what *[]string) (string, string) {
 			*expect = append(*expect, "invalid")
 			*what = append(*what, "Lean JSON codec rejects "+trunc(doc, 60))
 		}
+	case "mismatch":
+		// well-formed JSON that is not valid for the target ("not valid JSON for the target"): an error and a
+		// Close frame with status 1007, exactly as for malformed input
+		type person struct {
+			Age  int    `json:"age"`
+			Name string `json:"name"`
+		}
+		docs := []string{`"hello"`, `300`, `{"age":"forty","name":"x"}`, `[1,2,3]`, `{"a":1}`, `[1,"two",3]`}
+		doc := docs[cc.Target%6]
+		peer.writeFrame(RawFrame{Fin: true, Op: 1, Payload: []byte(doc)})
+		var err error
+		switch cc.Target % 6 {
+		case 0:
+			var v int
+			err = wsjson.Read(ctx, c, &v)
+		case 1:
+			var v uint8
+			err = wsjson.Read(ctx, c, &v)
+		case 2:
+			var v person
+			err = wsjson.Read(ctx, c, &v)
+		case 3:
+			var v map[string]int
+			err = wsjson.Read(ctx, c, &v)
+		default:
+			var v []int
+			err = wsjson.Read(ctx, c, &v)
+		}
+		if err == nil {
+			return "invalid-json-accepted", fmt.Sprintf("%s: %s decoded into a target it does not fit without error", desc, doc)
+		}
+		for {
+			f, ferr := peer.readFrame(3 * time.Second)
+			if ferr != nil {
+				return "invalid-json-no-1007", fmt.Sprintf("%s: no Close frame with status 1007 after %s did not fit its target (Read returned %v)", desc, doc, err)
+			}
+			if f.Op == 8 {
+				if len(f.Payload) >= 2 && int(f.Payload[0])<<8|int(f.Payload[1]) == 1007 {
+					break
+				}
+				return "invalid-json-close-code", fmt.Sprintf("%s: Close payload %s", desc, hx(f.Payload))
+			}
+		}
 	case "unmarshalable":
 		// a value encoding/json cannot encode: wsjson.Write must fail, put nothing on the wire and leave the
 		// connection usable for the next value
@@ -266,7 +309,7 @@ func runC19Case(cc c19Case, lines, expect, what *[]string) (string, string) {
 func runC19(ctx *runCtx) {
 	rep := ctx.rep
 	rep.Rule = "JSON values from a recursive generator (nesting <= 4, null/bool/integers/floats, strings with escapes, unicode and control characters, arrays, objects, 40-70 KB strings beyond the default read limit with the limit raised), written with wsjson.Write and observed by a raw peer (exactly one text message, payload = json.Marshal + newline, nothing after it) and read back with wsjson.Read from a fragmented message followed by another message (exactly one consumed); " +
-		"malformed and truncated documents into every kind of target (interface, RawMessage, map, struct, slice: error + Close 1007); values encoding/json cannot encode (error, nothing on the wire, connection usable); RawMessage and []byte targets checked after later reads and 16 concurrent connections sharing the buffer pool (aliasing); a document of more than a megabyte followed by small ones on the same and on a fresh connection; the Lean JSON codec compared on the integer fragment. distinct = case tuple"
+		"malformed and truncated documents into every kind of target, well-formed documents that do not fit their target (string into int, 300 into uint8, wrong field type, array into map, object into slice, mixed array) (interface, RawMessage, map, struct, slice: error + Close 1007); values encoding/json cannot encode (error, nothing on the wire, connection usable); RawMessage and []byte targets checked after later reads and 16 concurrent connections sharing the buffer pool (aliasing); a document of more than a megabyte followed by small ones on the same and on a fresh connection; the Lean JSON codec compared on the integer fragment. distinct = case tuple"
 	if ctx.replay != "" {
 		var cc c19Case
 		if err := loadReplay(ctx.replay, &cc); err == nil && cc.Kind != "" {
@@ -294,6 +337,7 @@ func runC19(ctx *runCtx) {
 	for i, d := range bad {
 		if i < 5 {
 			cases = append(cases, c19Case{Client: i%2 == 0, Kind: "unmarshalable", Seed: int64(i)})
+			cases = append(cases, c19Case{Client: i%2 == 1, Kind: "mismatch", Target: i}, c19Case{Client: i%2 == 0, Kind: "mismatch", Target: i + 1})
 		}
 		cases = append(cases, c19Case{Client: i%2 == 0, Kind: "invalid", Doc: d, Seed: ctx.seed}, c19Case{Client: i%2 == 1, Kind: "invalid", Doc: d, Seed: ctx.seed, Target: 1}, c19Case{Client: i%2 == 0, Kind: "invalid", Doc: d, Seed: ctx.seed, Target: 2 + i%3})
 	}
